@@ -252,7 +252,10 @@ class World:
                     "time": pd.Timestamp(h), "instrument_name": name, "state": state, "type": sp["kind"],
                     "strike_price": K, "t": pd.Timedelta(sp["expiry"] - h), "expiry_time": pd.Timestamp(sp["expiry"]),
                     "vega": 1.0, "theta": -1.0, "rho": 0.5, "gamma": round(rng.uniform(0.0001, 0.004), 5),
-                    "delta": round(rng.uniform(-1, 1), 5), "underlying_price": S, "settlement_price": float("nan"),
+                    "delta": round(rng.uniform(-1, 1), 5), "underlying_price": S,
+                    # the option's own daily settlement price (in coins, about the size of its mark; no part in the delivery rule):
+                    # filled for instruments older than a day, i.e. for some of them
+                    "settlement_price": round(mark * 0.97, 6) if (int(K) // 50) % 3 == 0 else float("nan"),
                     "mark_price": mark, "mark_iv": 50.0, "last_price": mark, "interest_rate": 0.0, "bid_iv": 45.0,
                     "best_bid_price": bids[0][0] if bids else 0.0, "best_bid_amount": bids[0][1] if bids else 0.0,
                     "ask_iv": 55.0, "best_ask_price": asks[0][0], "best_ask_amount": asks[0][1],
